@@ -62,6 +62,7 @@ class Checker:
         self.explanation = ""
         self.rule_text = ""
         self.min_counts: dict[str, int] = {}
+        self.sensitivity: dict[str, Any] | None = None
 
     # ------------------------------------------------------------ recording
     def _site(self, where: Func | Mod | tuple[str, str] | None, node: ast.AST | None) -> tuple[str, str, int]:
@@ -186,6 +187,7 @@ class Checker:
                 "checker_cmd": f"./check {self.pid} --tier {self.tier}",
                 "trusted_base": ["CPython 3.12 ast parser", "the analyser itself (exercised both ways by ./selftest)"],
                 "analysed_modules": self.repo.digests(),
+                **({"sensitivity_audit": self.sensitivity} if self.sensitivity is not None else {}),
             },
             "assumptions": self.assumptions,
             "wall_s": round(wall, 3),
@@ -222,6 +224,11 @@ def run_check(pid: str, tier: str, body: Callable[[Checker], None]) -> int:
         repo = Repo()
         ck = Checker(pid, tier, repo)
         body(ck)
+        if tier == "thorough" and not os.environ.get("PYOAK_VERIF_REPO"):
+            try:
+                ck.sensitivity = sensitivity_audit(pid)
+            except Exception as e:  # the audit is informational, never a verdict
+                ck.sensitivity = {"error": f"{type(e).__name__}: {e}"}
         return ck.finish()
     except (AnchorMissing, Unsupported) as e:
         print(f"ANALYSIS-INCOMPLETE property={pid} construct=? reason={e}")
@@ -230,3 +237,53 @@ def run_check(pid: str, tier: str, body: Callable[[Checker], None]) -> int:
         traceback.print_exc()
         print(f"ANALYSIS-ERROR property={pid}")
         return 2
+
+
+def sensitivity_audit(pid: str) -> dict[str, Any]:
+    """Thorough tier: re-derive the recorded breaking / behaviour-preserving variants of this property from the
+    current tree (scratch copies outside /repo and /verif, removed afterwards) and run the quick analysis on each.
+    Informational: it measures that the rules still have teeth on today's source; it is never a verdict on /repo."""
+    import concurrent.futures as cf
+    import shutil
+    import subprocess
+    import tempfile
+
+    sys.path.insert(0, str(VERIF))
+    try:
+        from selftest_cases import CASES
+    finally:
+        sys.path.pop(0)
+    cases = [c for c in CASES if (pid in c["prop"] if isinstance(c["prop"], list) else c["prop"] == pid)]
+
+    def one(case: dict[str, Any]) -> tuple[str, str]:
+        tmp = tempfile.mkdtemp(prefix="pyoakverif-audit-")
+        try:
+            shutil.copytree(str(REPO_SRC()), os.path.join(tmp, "src"))
+            for rel, old, new in case["edits"]:
+                p = os.path.join(tmp, rel)
+                txt = open(p).read()
+                if txt.count(old) != 1:
+                    return case["name"], "not-applicable"
+                open(p, "w").write(txt.replace(old, new))
+            env = dict(os.environ, PYOAK_VERIF_REPO=tmp, PYOAK_VERIF_EVIDENCE_DIR=os.path.join(tmp, "ev"), PYOAK_VERIF_OUT_DIR=os.path.join(tmp, "out"), VERIF_TIER="quick")
+            r = subprocess.run([str(VERIF / "check"), pid, "--tier", "quick"], capture_output=True, text=True, env=env, cwd=str(VERIF))
+            if case["expect"] == "fire":
+                return case["name"], "detected" if r.returncode == 1 else ("incomplete" if r.returncode == 2 else "missed")
+            return case["name"], "silent" if r.returncode == 0 else "alarm"
+        finally:
+            shutil.rmtree(tmp, ignore_errors=True)
+
+    with cf.ThreadPoolExecutor(16) as ex:
+        results = list(ex.map(one, cases))
+    summary: dict[str, Any] = {"variants": len(results)}
+    for k in ("detected", "missed", "incomplete", "silent", "alarm", "not-applicable"):
+        names = [n for n, r in results if r == k]
+        summary[k] = len(names)
+        if k in ("missed", "alarm", "incomplete") and names:
+            summary[k + "_names"] = names
+    return summary
+
+
+def REPO_SRC() -> Path:
+    from .srcmodel import REPO_ROOT
+    return REPO_ROOT / "src"
